@@ -80,9 +80,9 @@ Proof.
       intros e He. apply H1. now right.
     + left. exists b, p. split; [|reflexivity]. exists ((b2, p2) :: rest). split; [now symmetry|].
       assert (Hlt : p2 < p).
-      { apply Qle_lteq in (H1 (b2, p2) (or_introl eq_refl)). cbn [snd] in H1.
-        destruct (H1 (b2, p2) (or_introl eq_refl)) as [Hlt|Heq]; [assumption|].
-        cbn [snd] in Heq. symmetry in Heq. apply Qeq_bool_iff in Heq. congruence. }
+      { pose proof (H1 (b2, p2) (or_introl eq_refl)) as Hle. cbn [snd] in Hle.
+        apply Qle_lteq in Hle. destruct Hle as [Hlt|Heq]; [assumption|].
+        symmetry in Heq. apply Qeq_bool_iff in Heq. congruence. }
       intros e [<-|He]; [assumption|]. cbn [snd].
       eapply Qle_lt_trans; [apply H2; assumption|assumption].
 Qed.
@@ -103,7 +103,7 @@ Section Scale.
   Proof.
     apply bool_iff. rewrite !Qeq_bool_iff. unfold Qdiv. split; intros H.
     - apply Qmult_inj_r in H; [assumption|].
-      intros H0. pose proof (Qinv_lt_0_compat t Ht) as Hi. rewrite H0 in Hi. now apply Qlt_irrefl in Hi.
+      intros Hz. pose proof (Qinv_lt_0_compat t Ht) as Hi. rewrite Hz in Hi. now apply Qlt_irrefl in Hi.
     - now rewrite H.
   Qed.
 
@@ -150,15 +150,19 @@ Section Range.
     apply G. constructor.
   Qed.
 
+  Lemma one_minus_pos v : Forall in01 v -> Forall (fun p => 0 < p) (map (fun p => 1 - p) v).
+  Proof.
+    induction v as [|p v IHv]; intros Hv; cbn [map]; [constructor|].
+    inversion Hv as [|? ? [_ Hp] Hv']; subst. constructor; [|apply IHv; assumption].
+    rewrite <- (Qplus_opp_r p). unfold Qminus. apply Qplus_lt_l. assumption.
+  Qed.
+
   Lemma n_probs_vals d : Forall (fun kv => Forall in01 (snd kv)) d ->
     Forall (fun p => 0 < p) (n_probs d).
   Proof.
     induction d as [|[k v] d IH]; intros H; unfold n_probs; cbn [flat_map]; [constructor|].
     inversion H as [|? ? Hv Hd]; subst. apply Forall_app. split; [|apply IH; assumption].
-    cbn [fst snd] in *. destruct (Z.eqb k baseN); [constructor|].
-    induction v as [|p v IHv]; cbn [map]; [constructor|].
-    inversion Hv as [|? ? [_ Hp] Hv']; subst. constructor; [|apply IHv; assumption].
-    rewrite <- (Qplus_opp_r p). unfold Qminus. apply Qplus_lt_l. assumption.
+    cbn [fst snd] in *. destruct (Z.eqb k baseN); [constructor|]. apply one_minus_pos. assumption.
   Qed.
 
   Lemma scale4_pos n : 0 < scale4 n.
@@ -193,6 +197,13 @@ Section Range.
     - apply scale4_pos.
   Qed.
 
+  Lemma liks_nonneg d : Forall (fun kv => Forall in01 (snd kv)) d ->
+    Forall (fun e : entry => 0 <= snd e) (map (fun kv => (fst kv, lik (snd kv))) d).
+  Proof.
+    induction d as [|[k w] d IH]; intros H; cbn [map]; [constructor|].
+    inversion H; subst. constructor; [cbn [snd]; apply lik_nonneg; assumption|apply IH; assumption].
+  Qed.
+
   (* after probs['N'] = ..., every value is >= 0 and the N entry is > 0 *)
   Lemma dict_set_liks d v : Forall (fun kv => Forall in01 (snd kv)) d -> Forall (fun p => 0 < p) v ->
     let l := map (fun kv => (fst kv, lik (snd kv))) (dict_set baseN v d) in
@@ -204,10 +215,7 @@ Section Range.
       + apply lik_pos; assumption.
     - inversion Hd as [|? ? Hw Hd']; subst. destruct (Z.eqb k baseN); cbn [map fst snd].
       + split.
-        * constructor; [apply Qlt_le_weak, lik_pos; assumption|].
-          clear IH. induction Hd' as [|[k' w'] d' Hw' _ IHd]; cbn [map]; constructor.
-          -- cbn [snd]. apply lik_nonneg. assumption.
-          -- assumption.
+        * constructor; [apply Qlt_le_weak, lik_pos; assumption|apply liks_nonneg; assumption].
         * constructor. apply lik_pos; assumption.
       + destruct (IH Hd') as [I1 I2]. split.
         * constructor; [apply lik_nonneg; assumption|assumption].
@@ -230,7 +238,7 @@ Section Range.
     induction l as [|x l IH]; intros a Ha Hl He; [inversion He|]. cbn [fold_left].
     inversion Hl as [|? ? Hx Hl']; subst. inversion He as [? ? Hpos|? ? He']; subst.
     - eapply Qlt_le_trans; [|apply qsum_acc].
-      + rewrite <- (Qplus_0_l 0). apply Qplus_le_lt_compat; assumption.
+      + rewrite <- (Qplus_0_l 0), (Qplus_comm a x). apply Qplus_lt_le_compat; assumption.
       + rewrite <- (Qplus_0_r 0). apply Qplus_le_compat; assumption.
       + assumption.
     - apply IH; [|assumption|assumption].
